@@ -135,7 +135,7 @@ def c18(ctx):
     # (quick: the PIN, unwrap, sensitive-key, SO and token-key combinations run in the checks of C04, C06, C02, C03 and C09)
     shared = [("Lc,Lo", 2, 2500, False), ("Lv,Ll", 2, 2000, False)] if quick else \
              [("Lc,Lo", 2, 30000, False), ("Lc,Lo", 2, 20000, True), ("Lp,Lq", 2, 20000, True), ("Lr,Lx", 2, 20000, False),
-              ("Lv,Ll", 2, 20000, False), ("Lu,Ll", 2, 20000, False), ("Lu,Lo", 2, 20000, False), ("Ls,Lg", 2, 30000, False), ("Ls,Lg", 1, 20000, True), ("Lt2,Lw2", 2, 30000, False), ("Lz,Ly", 2, 20000, False), ("Lz,Lo", 2, 20000, False), ("Lc,Lv,Ll", 2, 20000, False), ("Lp,Lq,Lr", 2, 20000, False), ("Lr,Lx", 1, 10000, True)]
+              ("Lv,Ll", 2, 20000, False), ("Lu,Ll", 2, 20000, False), ("Lu,Lo", 2, 20000, False), ("Ls,Lg", 2, 30000, False), ("Ls,Lg", 1, 20000, True), ("Lt2,Lw2", 2, 30000, False), ("Lt,Lw", 2, 20000, False), ("Lz,Ly", 2, 20000, False), ("Lz,Lo", 2, 20000, False), ("Lc,Lv,Ll", 2, 20000, False), ("Lp,Lq,Lr", 2, 20000, False), ("Lr,Lx", 1, 10000, True)]
     tc_shared = dict(Threads=THREADS, PinSyms='{"P0", "P1", "P2", "PX", "SO"}', InitPin='"P0"',
                      Dev="{" + ", ".join('"%s"' % d for d in sorted(known) if d in ("LogoutSplit", "TransactionBusy", "DirtyRead", "TornWrite")) + "}")
     combos = combos + [c + (True,) for c in shared]
